@@ -146,7 +146,27 @@ pub fn apply_op_alt<K: EnrKey>(e: &mut Enr<K>, op: &Op, signer: &K, nonsigner: &
             RetObs::Unit
         }
         Op::RemoveInsert(rm, ins) => {
-            let (a, b) = e.remove_insert(rm.iter(), ins.iter().map(|(k, v)| (k.clone(), v.as_slice())), signer)?;
+            // the two arguments are `impl Iterator`: pass them as different KINDS of iterator (exact size hints, lower
+            // bound 0, lower bound 1, chained, owned items), chosen by the content so that a run is reproducible
+            let sel = (rm.len() * 7 + ins.len() * 3 + rm.first().map(|k| k.len()).unwrap_or(0) + ins.first().map(|(_, v)| v.len()).unwrap_or(0) + (e.seq() % 6) as usize) % 6;
+            let insit = |sel: usize| -> Box<dyn Iterator<Item = (Vec<u8>, &[u8])> + '_> {
+                match sel % 3 {
+                    0 => Box::new(ins.iter().map(|(k, v)| (k.clone(), v.as_slice()))),
+                    1 => Box::new(ins.iter().filter(|_| true).map(|(k, v)| (k.clone(), v.as_slice()))),
+                    _ => Box::new(ins.iter().take(0).chain(ins.iter()).map(|(k, v)| (k.clone(), v.as_slice())).take_while(|_| true)),
+                }
+            };
+            let (a, b) = match sel {
+                0 => e.remove_insert(rm.iter(), insit(sel), signer)?,
+                1 => e.remove_insert(rm.iter().filter(|_| true), insit(sel), signer)?,
+                2 => e.remove_insert(rm.iter().take_while(|_| true), insit(sel), signer)?,
+                3 => e.remove_insert(vec![rm.clone()].into_iter().flatten(), insit(sel), signer)?,
+                4 => {
+                    let mut i = 0usize;
+                    e.remove_insert(std::iter::from_fn(|| { i += 1; rm.get(i - 1) }), insit(sel), signer)?
+                }
+                _ => e.remove_insert(std::iter::successors(rm.first().map(|k| (0usize, k)), |(i, _)| rm.get(i + 1).map(|k| (i + 1, k))).map(|(_, k)| k.clone()), insit(sel), signer)?,
+            };
             RetObs::RI(a.into_iter().map(raw).collect(), b.into_iter().map(raw).collect())
         }
         Op::SetPublicKey(which) => {
@@ -918,6 +938,24 @@ fn run_history_inner<KK: KeyKind>(ctx: &mut Ctx, h: &History, opts: &RunOpts) ->
                     ctx.violate("C15", "equal-records-differ-in-content-or-encoding", &format!("before-vs-after/{opn}"), || {
                         format!("{ktn}: after {opn} ({}) the record == its former self but pairs equal {} encoding equal {}", if res.is_ok() { "Ok" } else { "Err" }, post.pairs == pre.pairs, post.enc == pre.enc)
                     }, &replay);
+                }
+            }
+        }
+        // ---- Clone::clone_from of the new state into the old one (other pairs, perhaps another signature length or
+        // key): the slot becomes the source in every respect
+        if let Some(mut slot) = before {
+            match guard(|| {
+                slot.clone_from(&enr);
+                (alloy_rlp::encode(&slot), slot.node_id().raw(), slot == enr)
+            }) {
+                Ok((enc, nid, eq)) => {
+                    ctx.count("c15.clone_from");
+                    if enc != post.enc || nid != post.node_id || !eq {
+                        ctx.violate("C15", "clone_from-result-differs-from-source", &format!("after-{opn}"), || format!("{ktn}: clone_from(new state) into the old state: same encoding {}, same node id {}, == {eq}", enc == post.enc, nid == post.node_id), &replay);
+                    }
+                }
+                Err(p) => {
+                    ctx.violate("C03", "panic", &format!("clone_from/{}", panic_sig(&p)), || format!("{ktn}: clone_from of the state after step {i} {opn} into the state before it panicked: {p}"), &replay);
                 }
             }
         }
